@@ -9,5 +9,14 @@ MCBound == nextFile <= MaxFiles
 \* a directed configuration: the clients write keys 1 2 3 1 2 3 in this order (every flush /
 \* compaction choice in between is still explored)
 MCScript == <<1, 2, 3, 1, 2, 3>>
+\* ---- refinement: the LSM machine implements the key-value service (RainKV.tla)
+KVStore(s) == [k \in Keys |-> Get(k, s)]
+KV == INSTANCE RainKV WITH
+        KVKeys <- 1..NK,
+        store  <- KVStore(seq),
+        count  <- seq,
+        frozen <- [i \in 1..Len(snaps) |-> KVStore(snaps[i])],
+        views  <- {[id |-> p.id, map |-> [k \in Keys |-> PinGet(p, k)]] : p \in pins}
+ImplementsKV == KV!KVSpec
 MCScripted == \A i \in 1..Len(hist) : hist[i][1] = MCScript[i]
 =============================================================================
